@@ -9,5 +9,10 @@ def retrieveChecksExistsFirst : Bool := true
 def emptyOutsIsHit : Bool := true
 def enoentIsMiss : Bool := true
 def damagedIsMiss : Bool := true
+def retrievePreparesEveryEntry : Bool := true
+def retrieveOpenTruncates : Bool := false
+def retrieveReadySeq : List String := ["assign", "mkdir-parent-if-slash", "unlink-dest", "return"]
+def retrieveReadyReturnsBeforeUnlink : Bool := false
+def plainRetrievePreparesEveryOut : Bool := true
 def pathParts : List String := ["join-b64key", "param2", "param3", "field-Suffix"]
 end PlzVerif.Generated.C12
